@@ -660,6 +660,36 @@ def run_rk_case(res, cfg, cls):
 # ======================================================================================================================
 # plan / run / replay
 # ======================================================================================================================
+def rk_assumed_orders(rk_table):
+    from pySDC.implementations.convergence_controller_classes.adaptivity import AdaptivityRK
+
+    common.silence_logging()
+    classes = rk_classes()
+    emb = [n for n, e in rk_table.items() if e.get('embedded') and 'difference_vanishes_below_degree' in e and n in classes]
+    emb.sort(key=lambda n: (-int(classes[n].get_update_order()), n))
+    shared = {AdaptivityRK: {'e_tol': 1e-3}}
+    out = {}
+    for n in emb:
+        cls = classes[n]
+        imex = bool(rk_table[n].get('imex'))
+        desc = {
+            'problem_class': test_equation_IMEX if imex else testequation0d,
+            'problem_params': ({'lambdas_implicit': np.array([-1.0 + 0j]), 'lambdas_explicit': np.array([0.1j]), 'u0': 1.0} if imex else {'lambdas': np.array([-1.0 + 0j]), 'u0': 1.0}),
+            'sweeper_class': cls,
+            'sweeper_params': {},
+            'level_params': {'dt': 0.1},
+            'step_params': {'maxiter': 1},
+            'convergence_controllers': shared,
+        }
+        try:
+            ctrl = controller_nonMPI(num_procs=1, controller_params={'logger_level': 90, 'mssdc_jac': False}, description=desc)
+            inst = [c for c in ctrl.convergence_controllers if isinstance(c, AdaptivityRK)]
+            out[n] = (int(inst[0].params.update_order) if inst else None, int(rk_table[n]['difference_vanishes_below_degree']))
+        except Exception:  # noqa: BLE001
+            out[n] = (None, int(rk_table[n]['difference_vanishes_below_degree']))
+    return out
+
+
 def distinct_generators():
     seen = []
     for nm in O.qd_names():
@@ -757,6 +787,17 @@ def run(rep, tier):
     for label, r in common.pimap_unordered(run_unit, [units[i] for i in order], chunksize=1):
         total.merge(r)
         per[label].merge(r)
+    # the order the step-size controller REALLY assumes: read from AdaptivityRK instances of real controllers that are
+    # built one after the other from ONE convergence_controllers dictionary (a loop over sweepers in a user script), the
+    # classes with the highest update order first
+    assumed = rk_assumed_orders(total.rk_table)
+    for name, (uo_ctrl, vo) in sorted(assumed.items()):
+        total.evals += 1
+        if uo_ctrl is None:
+            continue
+        total.rk_table[name]['update_order_assumed_by_AdaptivityRK'] = uo_ctrl
+        if uo_ctrl > vo:
+            total.viols.append({'cfg': {'clause': 'rk', 'sweeper': name}, 'check': 'embedded.difference_vanishes_for_j<order_assumed_by_the_controller', 'detail': {'order_in_AdaptivityRK.params': uo_ctrl, 'first_nonvanishing_degree_of_the_difference': vo, 'class_update_order': total.rk_table[name].get('update_order'), 'history': 'controllers built one after the other from one convergence_controllers dictionary, highest update order first'}})
     groups = collections.defaultdict(list)
     for v in total.viols:
         groups[common.canon(signature_of(v))].append(v)
@@ -808,6 +849,14 @@ def replay(rep, case):
     cfg = dict(case['cfg'])
     cfg['_seen'] = set()
     res = Res()
+    if cfg.get('clause') == 'rk' and str(case.get('check', '')).startswith('embedded.difference_vanishes_for_j<order_assumed'):
+        table = {}
+        for n in rk_classes():
+            table.update(run_rk_unit({'sweeper': n}).rk_table)
+        uo_ctrl, vo = rk_assumed_orders(table).get(cfg['sweeper'], (None, 0))
+        if uo_ctrl is not None and uo_ctrl > vo:
+            rep.violation({'clause': 'rk', 'sweeper': cfg['sweeper'], 'check': case['check']}, {'order_in_AdaptivityRK.params': uo_ctrl, 'first_nonvanishing_degree_of_the_difference': vo}, case)
+        return
     if cfg.get('clause') == 'rk':
         run_rk_case(res, cfg, rk_classes()[cfg['sweeper']])
     elif cfg.get('clause') == 'sdc_switch':
